@@ -24,16 +24,18 @@ Vocabulary (Model/Cache.lean, Proofs/Cache*.lean):
                        it succeeded through the cache ("the same successful operations")
   `directRun r ops`    every call applied directly;  `allDirectOk r ops`: each of them succeeds
   `writeClass`         the calls of the class of the `_partial` theorems: WriteFile / Writer / MkdirAll / CopyFile
-                       through an ok handle, a WriteFile path (as the cache receives it) ending in a real name
-                       (a CopyFile that succeeds directly copies a file to an absent destination)
+                       through an ok handle (a CopyFile that succeeds directly copies a file to an absent destination)
   `Defect`, `defectsOf`  the decidable defect predicates of the known findings, see `findings_witnessed`
 
 WHAT IS PROVED
   full strength      remote_untouched (clause 1), commit_fail_reported ("the failure is reported"),
                      commit_changes_only_remote, commit_order_irrelevant (the Go map iteration order never matters:
-                     every reachable state, also outside the class)
+                     every reachable state, also outside the class), failed_call_journals_nothing and
+                     overlapping_copy_refused (the repairs of KF-C06-5/8 and KF-C06-7 as theorems)
   DISPROVED          commit_equiv (clause 2 for the code as it is): `commit_equiv_false`; one evaluated witness per
-                     finding class KF-C06-1 … KF-C06-12 in `findings_witnessed` (known_findings.d/C06.json)
+                     remaining finding class KF-C06-1, 2, 4, 6, 9, 10, 11, 12 in `findings_witnessed`
+                     (known_findings.d/C06.json).  KF-C06-3, 5, 7, 8 are REPAIRED (fix: commits of fscache/cache.go):
+                     `repaired_findings` evaluates their former witnesses, which now satisfy the statement.
   `_partial`         commit_equiv_partial, commit_retry_partial, second_commit_unchanged_partial — on the class
                      `writeClass` ∧ `allDirectOk`, i.e. under the negation of every defect predicate (that the class
                      contains no defect event is checked by the campaign `genclean`, not proved);
@@ -150,10 +152,9 @@ theorem commit_equiv_false : ¬ commit_equiv := by
     (by decide)).2
   exact absurd (congrFun this [[98]]) (by decide)
 
-/-- ONE WITNESS PER FINDING CLASS (known_findings.d/C06.json; the same histories are replayed on the Go code by
-every run of the check).  For each: the history is in the class named by its defect predicate, and Commit either
-fails or leaves a tree that differs from direct application at the given path.  (KF-C06-7 — overlapping copy
-arguments — does not return in Go; only its predicate can be evaluated here.) -/
+/-- ONE WITNESS PER REMAINING FINDING CLASS (known_findings.d/C06.json; the same histories are replayed on the Go
+code by every run of the check).  For each: the history is in the class named by its defect predicate, and Commit
+either fails or leaves a tree that differs from direct application at the given path. -/
 theorem findings_witnessed :
     -- KF-C06-1  Remove of a remote empty directory is never replayed
     (Defect.removeRemoteDir ∈ defectsOf (Sim.new (Witness.mkRemote Witness.r1 Node.empty)) (Witness.calls Witness.h1)
@@ -161,23 +162,12 @@ theorem findings_witnessed :
     -- KF-C06-2  write, then RemoveAll of a parent: Commit re-creates the parents
     ∧ (Defect.removeAboveWrite ∈ defectsOf (Sim.new Node.empty) (Witness.calls Witness.h2)
       ∧ abs (Witness.committed [] Witness.h2).1.remote [[98]] ≠ abs (Witness.sim [] Witness.h2).direct [[98]])
-    -- KF-C06-3  WriteFile journals the uncleaned path: Commit fails
-    ∧ (Defect.uncleanWrite ∈ defectsOf (Sim.new Node.empty) (Witness.calls Witness.h3)
-      ∧ (Witness.committed [] Witness.h3).2.2 = false)
     -- KF-C06-4  a copied directory never reaches the remote
     ∧ (Defect.dirCopy ∈ defectsOf (Sim.new (Witness.mkRemote Witness.r4 Node.empty)) (Witness.calls Witness.h4)
       ∧ abs (Witness.committed Witness.r4 Witness.h4).1.remote [[99]] ≠ abs (Witness.sim Witness.r4 Witness.h4).direct [[99]])
-    -- KF-C06-5  a failed copy has journalled its destination: Commit creates its parent
-    ∧ (Defect.failedJournalled ∈ defectsOf (Sim.new Node.empty) (Witness.calls Witness.h5)
-      ∧ abs (Witness.committed [] Witness.h5).1.remote [[97]] ≠ abs (Witness.sim [] Witness.h5).direct [[97]])
     -- KF-C06-6  mkdir a/b; remove a/b forgets a
     ∧ (Defect.removeBufferDir ∈ defectsOf (Sim.new Node.empty) (Witness.calls Witness.h6)
       ∧ abs (Witness.committed [] Witness.h6).1.remote [[97]] ≠ abs (Witness.sim [] Witness.h6).direct [[97]])
-    -- KF-C06-7  overlapping copy arguments
-    ∧ Defect.overlapCopy ∈ defectsOf (Sim.new Node.empty) (Witness.calls Witness.h7)
-    -- KF-C06-8  a refused RemoveAll of the root poisons Commit
-    ∧ (Defect.rootRemoveAll ∈ defectsOf (Sim.new Node.empty) (Witness.calls Witness.h8)
-      ∧ (Witness.committed [] Witness.h8).2.2 = false)
     -- KF-C06-9 (= KF-C07-3)  write beneath a remote file is accepted: Commit fails
     ∧ (Defect.typeConflict ∈ defectsOf (Sim.new (Witness.mkRemote Witness.r9 Node.empty)) (Witness.calls Witness.h9)
       ∧ (Witness.committed Witness.r9 Witness.h9).2.2 = false)
@@ -192,12 +182,62 @@ theorem findings_witnessed :
     ∧ (Defect.staleCopySource ∈ defectsOf (Sim.new (Witness.mkRemote Witness.r12 Node.empty)) (Witness.calls Witness.h12)
       ∧ abs (Witness.committed Witness.r12 Witness.h12).1.remote [[98]]
           ≠ abs (Witness.sim Witness.r12 Witness.h12).direct [[98]]) := by
-  refine ⟨⟨?_, ?_⟩, ⟨?_, ?_⟩, ⟨?_, ?_⟩, ⟨?_, ?_⟩, ⟨?_, ?_⟩, ⟨?_, ?_⟩, ?_, ⟨?_, ?_⟩, ⟨?_, ?_⟩, ⟨?_, ?_⟩, ⟨?_, ?_⟩, ⟨?_, ?_⟩⟩ <;>
-    decide
+  refine ⟨⟨?_, ?_⟩, ⟨?_, ?_⟩, ⟨?_, ?_⟩, ⟨?_, ?_⟩, ⟨?_, ?_⟩, ⟨?_, ?_⟩, ⟨?_, ?_⟩, ⟨?_, ?_⟩⟩ <;> decide
+
+/-- THE REPAIRED FINDINGS (fix: commits of /repo/filesystem/fscache/cache.go; witnesses kept in corpus/C06).  Their
+former witnesses are in no defect class any more and satisfy the statement:
+KF-C06-3 `WriteFile("a/b/")`: Commit succeeds and the remote holds the file a/b;
+KF-C06-5 a failed `Copy("c", "a/b")` leaves nothing for Commit: the remote stays empty;
+KF-C06-7 `Copy("a", "a")` answers an error (it did not return) and changes nothing;
+KF-C06-8 a refused `RemoveAll("")` does not poison Commit. -/
+theorem repaired_findings :
+    (defectsOf (Sim.new Node.empty) (Witness.calls Witness.h3 ++ [.commit none]) = []
+      ∧ (Witness.committed [] Witness.h3).2.2 = true
+      ∧ abs (Witness.committed [] Witness.h3).1.remote [[97], [98]] = some (.file [120]))
+    ∧ (defectsOf (Sim.new Node.empty) (Witness.calls Witness.h5 ++ [.commit none]) = []
+      ∧ (Witness.committed [] Witness.h5).2.2 = true
+      ∧ abs (Witness.committed [] Witness.h5).1.remote [[97]] = none)
+    ∧ (defectsOf (Sim.new Node.empty) (Witness.calls Witness.h7) = []
+      ∧ (step .cache (run (State.new Node.empty) [(.cache, .writeFile [97] [120])]) (.copy [97] [97])).2 = .err
+      ∧ (Witness.committed [] Witness.h7).2.2 = true
+      ∧ abs (Witness.committed [] Witness.h7).1.remote = abs (Witness.sim [] Witness.h7).direct)
+    ∧ (defectsOf (Sim.new Node.empty) (Witness.calls Witness.h8 ++ [.commit none]) = []
+      ∧ (Witness.committed [] Witness.h8).2.2 = true
+      ∧ abs (Witness.committed [] Witness.h8).1.remote [[97]] = some (.file [120])) := by
+  refine ⟨⟨?_, ?_, ?_⟩, ⟨?_, ?_, ?_⟩, ⟨?_, ?_, ?_, ?_⟩, ⟨?_, ?_, ?_⟩⟩
+  all_goals first | decide | skip
+  -- KF-C06-7: the whole tree, through `commit_equiv_partial` would need the class; here by evaluation per path
+  funext q
+  have h1 : (Witness.committed [] Witness.h7).1.remote = (Witness.sim [] Witness.h7).direct := by rfl
+  rw [h1]
+
+/-- A CALL THAT FAILS JOURNALS NOTHING (the repair of KF-C06-5 and KF-C06-8 at full strength): whatever the state,
+the handle and the method, a call that does not answer `ok` leaves the write, remove and removeAll journals as they
+were — nothing of it is replayed by Commit.  (`MkdirAll` journals in any case; Commit replays such an entry only
+while the buffer has that directory.) -/
+theorem failed_call_journals_nothing (h : Handle) (s : Cache.State) (op : Op) (hr : (step h s op).2 ≠ .ok) :
+    (step h s op).1.write = s.write ∧ (step h s op).1.remove = s.remove ∧ (step h s op).1.removeAll = s.removeAll :=
+  step_failed h s op hr
+
+example :
+    (step .cache (State.new Node.empty) (.copy [99] [97, 47, 98])).2 = .err
+    ∧ (step .cache (State.new Node.empty) (.removeAll [])).2 = .err
+    ∧ (step .cache (State.new Node.empty) (.writeFile [46, 46, 47, 120] [1])).2 = .err := by decide
+
+/-- OVERLAPPING COPIES ARE REFUSED (the repair of KF-C06-7 at full strength): `Copy` whose cleaned source and
+destination are the same node or contain one another (the root contains every node) answers an error and changes
+nothing — it used not to return. -/
+theorem overlapping_copy_refused (s : Cache.State) (a b : Bytes)
+    (h : overlaps (Path.cleanPath a) (Path.cleanPath b) = true) : Cache.copy s a b = (s, .err) :=
+  copy_overlap_refused s a b h
+
+example : overlaps (Path.cleanPath [97, 47, 46, 47, 98]) (Path.cleanPath [47, 97]) = true
+    ∧ overlaps (Path.cleanPath [97, 47, 46, 46]) (Path.cleanPath [47, 46, 46]) = true
+    ∧ overlaps (Path.cleanPath [97, 98]) (Path.cleanPath [97]) = false := by decide
 
 /-- `commit_equiv` ON THE CLASS (the same conclusion as the full statement): histories of WriteFile / Writer /
 MkdirAll / CopyFile through the cache or ok child views, any spellings, any length, on any well-formed initial remote, in
-which every operation also succeeds when applied directly.  Every call succeeds through the cache, Commit
+which every operation also succeeds when applied directly (no condition on spellings any more: KF-C06-3 is repaired).  Every call succeeds through the cache, Commit
 succeeds, and the remote is exactly the direct tree. -/
 theorem commit_equiv_partial (r0 : Node) (hr : Inv r0) (ops : List (Handle × Op))
     (hclass : ops.all writeClass = true) (hdirect : allDirectOk r0 ops = true) :
